@@ -173,6 +173,7 @@ func (p *wProc) die() {
 		return
 	}
 	p.isDead = true
+	wTrace(fmt.Sprintf("process %d dies", p.id))
 	close(p.dead)
 	p.stdout.closeWrite()
 	p.stderr.closeWrite()
